@@ -45,11 +45,14 @@ def exc_desc(e, logmod):
         c = getattr(e, "error_code", None)
         return "dds:" + (c.name if c is not None else "NONE")
     # user exception raised by a generated function: check identity with the object the function created
-    ident = ""
+    ident, name = "", type(e).__name__
     for tag, ex in getattr(logmod, "_EXC", {}).items():
         if ex is e:
             ident = ":same-object:" + tag
-    return "exc:" + type(e).__name__ + ident
+            k = getattr(logmod, "_KIND", {}).get(tag, name)      # "Class/variant" for the exceptions the interpreter creates
+            if k.split("/")[0] == name:
+                name = k
+    return "exc:" + name + ident
 
 
 class RecordingStore(object):
@@ -249,11 +252,14 @@ def main_nodds(payload):
             if type(e).__name__ == "DDSException":
                 res["out"] = "dds:NONE"
             else:
-                ident = ""
+                ident, name = "", type(e).__name__
                 for tag, ex in getattr(logmod, "_EXC", {}).items():
                     if ex is e:
                         ident = ":same-object:" + tag
-                res["out"] = "exc:" + type(e).__name__ + ident
+                        k = getattr(logmod, "_KIND", {}).get(tag, name)
+                        if k.split("/")[0] == name:
+                            name = k
+                res["out"] = "exc:" + name + ident
         res["log"] = list(logmod.LOG)
         out.append(res)
     print("@@RESULT@@" + json.dumps(out))
@@ -286,7 +292,7 @@ def main():
         import fsgate
         fsgate.install([payload["store"].get("internal_dir", "/nonexistent"), payload["store"].get("data_dir", "/nonexistent")],
                        mode=gate.get("mode", "trace"), crash_at=gate.get("crash_at"), half=gate.get("half", False),
-                       logfile=gate.get("logfile"))
+                       logfile=gate.get("logfile"), after_open=gate.get("after_open", False))
     store = make_store(payload["store"], rec)
     dds.set_store(store)
     out = []
